@@ -505,7 +505,7 @@ def vary_clocks(f, rnd):
 
 def ep_terminal_positions(rnd, tier, deep):
     """corpus/ep_terminal_positions.txt (tools/gen_epterminal.py): mates and stalemates in which an en-passant capture is on the
-    board but illegal (opens the king's rank/diagonal, pinned capturer, unanswered check) — terminal although a pawn "can move""""
+    board but illegal (opens the king's rank/diagonal, pinned capturer, unanswered check) — terminal although a pawn seems able to move"""
     try:
         ls = [l.strip() for l in open(os.path.join(VERIF, "corpus", "ep_terminal_positions.txt")) if l.strip()]
     except OSError:
